@@ -38,6 +38,18 @@ class UninitRead(Exception):
     """The code under analysis computed with an uninitialised array element."""
 
 
+class Inf(Uninit):
+    """Result of a floating-point division by an exact zero inside an array (numpy: inf with a warning).
+    Reading it in further arithmetic is reported like an uninitialised read unless the consumer
+    (interp1d) can prove the element is never selected."""
+
+    def __repr__(self):
+        return "INF"
+
+
+INF = Inf()
+
+
 UNINIT = Uninit()
 
 
@@ -267,6 +279,17 @@ class SymArray:
             return
         if isinstance(i, SymArray):
             if i.dtype_tag == "bool":
+                if _is_scalar(v) and not isinstance(v, Uninit) and len(i.d) == len(self.d) and \
+                        not any(isinstance(x, Uninit) for x in self.d):
+                    # masked store of one scalar: element-wise selection, no path split
+                    cv = self._coerce(v)
+                    for j, m in enumerate(i.d):
+                        if isinstance(m, bool):
+                            if m:
+                                self.d[j] = cv
+                        else:
+                            self.d[j] = s_ite(m, cv, self.d[j])
+                    return
                 idx = self._mask_indices(i)
             else:
                 idx = [int(j) for j in i.d]
@@ -350,8 +373,8 @@ class SymArray:
             dt = _promote(dt, o.dtype_tag)
         return dt if dt in FLOATS else "f8"
 
-    def __truediv__(self, o): return self._bin(o, lambda a, b: a / b, self._fdt(o))
-    def __rtruediv__(self, o): return self._bin(o, lambda a, b: b / a, self._fdt(o))
+    def __truediv__(self, o): return self._bin(o, lambda a, b: _div0(a, b), self._fdt(o))
+    def __rtruediv__(self, o): return self._bin(o, lambda a, b: _div0(b, a), self._fdt(o))
 
     def __pow__(self, o):
         c = concrete(o) if _is_scalar(o) else None
@@ -429,6 +452,13 @@ class SymArray:
         return SymArray(self._flat(), self.dtype_tag)
 
     ravel = flatten
+
+
+def _div0(a, b):
+    try:
+        return a / b
+    except ZeroDivisionError:
+        return INF
 
 
 def _spow(a, b):
